@@ -69,6 +69,7 @@ CLAIMS = {
             'Connect tokens (Verus, U20, unbounded, real code of token.rs/serialize.rs): ConnectToken::write / PrivateConnectToken::write / write_server_addresses write exactly the wire form (spec function) of their argument; '
             'the readers return t and consume exactly the written bytes on every input of the form wire(t) ++ tail with t a token the library builds (1..=32 IPv4/IPv6 addresses in the first slots), and everything they return is such a token '
             '(so its re-serialization reads back as the same value); PrivateConnectToken::encode/decode are inverse under the idealised AEAD; generate builds only such tokens. '
+            'KNOWN FINDING (genuine, not repaired, see known_findings.txt): generate accepts IPv6 socket addresses with a scope id / flow label, which the format cannot carry -- the one obligation stating that every address of a built token is representable fails and is reported as KNOWN-FINDING. '
             'Assumed for tokens: io::Read/io::Write stream model, little-endian meaning of to/from_le_bytes, std::net constructors/accessors, the Cursor glue of encode/decode, the filter/count chain (D19).'),
     'C17': ('Usage contract of the AEAD in Packet::encode/decode: sealed exactly once with (sequence, key), AAD binds version, protocol id and prefix byte, nonce is the '
             'decoded sequence, ciphertext is everything after the sequence bytes (Kani, complete).',
@@ -179,9 +180,9 @@ def main():
             level_claimed=dict(category='proof', text=text + ' Units: ' + ', '.join('%s(%s)' % u for u in units) + '.',
                                design_ref='DESIGN.md section 4, ' + pid),
             level_note=note + ' Trusted base: Verus/Z3, Kani/CBMC, vstd std specs, the shims and assumed std specs listed in the evidence, '
-                       'extraction rules D1-D12 (DESIGN.md 2.1), 64-bit usize.',
+                       'extraction rules D1-D26 (DESIGN.md 2.1), 64-bit usize.',
             technique='contract-based deductive verification: Verus contracts woven onto functions extracted verbatim from /repo'
-                      + (' + Kani harnesses asserting pre/post-conditions over full symbolic domains' if 'kani' in engines else ''),
+                      + (' + Kani harnesses on the real crate asserting pre/post-conditions (complete over their stated symbolic domain, or labelled bounded stand-ins that are never counted as proved: see level_note and the evidence)' if 'kani' in engines else ''),
         ))
     try:
         fixes = subprocess.check_output(['git', '-C', '/repo', 'log', '--format=%h %s', '--grep=^fix:'], text=True).strip().split('\n')
